@@ -186,7 +186,17 @@ impl H {
             for n in &names {
                 out.push(Tamper::Rewrite { meta: mp.clone(), remove: vec![n.clone()], set: vec![], move_payload_to_legacy: false, note: format!("strip {n}") });
             }
-            let combos: Vec<Vec<&str>> = vec![vec![], vec!["an", "at"], vec!["an", "at", "av"], vec!["an", "at", "av", "g"], vec!["an", "at", "av", "g", "m"], vec!["an", "at", "av", "g", "m", "c"]];
+            let combos: Vec<Vec<&str>> = vec![
+                vec![],
+                vec!["an", "at"],
+                vec!["an", "at", "av"],
+                // the layout of a 0.9.x sealed object: chunk-AAD version kept, no generation
+                vec!["an", "at", "g"],
+                vec!["an", "at", "g", "m"],
+                vec!["an", "at", "av", "g"],
+                vec!["an", "at", "av", "g", "m"],
+                vec!["an", "at", "av", "g", "m", "c"],
+            ];
             let size: u64 = match field(&m, "s") { Some(CV::Integer(i)) => u64::try_from(*i).unwrap_or(0), _ => 0 };
             let tags: Vec<CV> = match field(&m, "t") { Some(CV::Array(a)) => a.clone(), _ => vec![] };
             let mut sets: Vec<(String, Vec<(String, CV)>)> = vec![("".into(), vec![])];
@@ -723,7 +733,9 @@ impl Harness for H {
                 // pre-auth legacy metadata. Violations reached through such compound
                 // tampers are classified separately (known finding, see DESIGN.md §6)
                 // and do not stop the sweep.
-                let full_strip = matches!(t, Tamper::Rewrite { remove, .. } if remove.iter().any(|f| f == "an") && remove.iter().any(|f| f == "at"));
+                // ... i.e. of an, at, av AND g: anything less still carries a field
+                // that genuine pre-auth metadata never had and must be rejected.
+                let full_strip = matches!(t, Tamper::Rewrite { remove, .. } if ["an", "at", "av", "g"].iter().all(|f| remove.iter().any(|r| r == f)));
                 let window = !strict && full_strip;
                 let mut outcome = String::new();
                 let r = (|| -> Result<(), Violation> {
